@@ -25,6 +25,9 @@ def main(argv):
     if cmd == "seed-eval":
         from . import seed
         return seed.main(argv[1:])
+    if cmd == "mutate":
+        from . import mutate
+        return mutate.main(argv[1:])
     if cmd == "selftest":
         from . import selftest
         return selftest.main(argv[1:])
